@@ -23,7 +23,8 @@ const (
 func (t Ty) String() string { return [...]string{"int", "str", "bool", "arr"}[t] }
 
 // Column naming convention: the first letter gives the nominal type.
-//   i… int, s… string, b… bool, m… array of ints
+//
+//	i… int, s… string, b… bool, m… array of ints
 func ColType(name string) Ty {
 	switch {
 	case strings.HasPrefix(name, "s"):
